@@ -39,7 +39,7 @@ def run_entry(e):
                 sh(['git', '-C', d, 'revert', '--no-commit', find_commit(pre)])
         if 'patch' in e:
             sh(['git', '-C', d, 'apply', os.path.join(V, e['patch'])])
-        r = sh([os.path.join(V, 'check'), e['property'], '--repo', d], check=False)
+        r = sh([os.path.join(V, 'check'), e['property'], '--repo', d] + (['--tier', e['tier']] if e.get('tier') else []), check=False)
         out = r.stdout
         fired = r.returncode == 1 and 'VIOLATION property=%s' % e['property'] in out
         hit = e['expect'] in out
